@@ -356,3 +356,55 @@ let classify_set (args : sx) (real : string) (_ : string) : string =
         if got = reference then "holds" else "member"
     | _ -> "unclassified"
 let () = Hashtbl.replace table "set" op_set; Hashtbl.replace classifiers "set" classify_set
+
+(* ---------- S-hist ---------- *)
+let rec sx_of_bdd = function
+  | F -> A "F" | T -> A "T"
+  | Nd (t, v, f) -> L [A "N"; sx_of_bdd t; A (string_of_int (int_of_nat v)); sx_of_bdd f]
+let rec subst_handles (vals : bdd array) (n : int) (x : sx) : sx =
+  match x with
+  | L [A "h"; k] -> let i = int_atom k in if i < n then sx_of_bdd vals.(i) else raise (Bad "handle")
+  | L l -> L (List.map (subst_handles vals n) l)
+  | a -> a
+let op_hist (args : sx) : string =
+  let steps = Array.of_list (list_of args) in
+  let vals = Array.make (Array.length steps) F in
+  let buf = Buffer.create 256 in
+  Buffer.add_string buf "(ok";
+  let rec go i =
+    if i >= Array.length steps then (Buffer.add_char buf ')'; Buffer.contents buf)
+    else match run run_fuel F (expr_of (subst_handles vals i steps.(i))) with
+      | Some b -> vals.(i) <- b; Buffer.add_char buf ' '; show_bdd buf b; go (i + 1)
+      | None -> Printf.sprintf "(step-failed %d (diverge))" i in
+  go 0
+let op_heap (args : sx) : string =
+  let calls = list_of args in
+  let h = ref h_new in
+  let addrs = ref [] (* reversed *) in
+  let classes = ref [] and sizes = ref [] in
+  let nth_addr i = let l = List.rev !addrs in List.nth l i in
+  List.iter (fun c ->
+    let a = match c with
+      | L [A "mk"; i; v; j] ->
+          (match h_mk_choice !h (nth_addr (int_atom i)) (nat_atom v) (nth_addr (int_atom j)) with
+           | Some (h', p) -> h := h'; p
+           | None -> raise (Bad "mk_choice failed"))
+      | L [A "const"; b] ->
+          (match h_mk_const !h (atom b = "1") with Some p -> p | None -> raise (Bad "mk_const failed"))
+      | _ -> raise (Bad "call") in
+    let prev = List.rev !addrs in
+    let rec first k = function [] -> k | x :: r -> if x = a then k else first (k + 1) r in
+    classes := string_of_int (first 0 prev) :: !classes;
+    addrs := a :: !addrs;
+    sizes := string_of_int (List.length !h.table) :: !sizes) calls;
+  "(ok (" ^ String.concat " " (List.rev !classes) ^ ") (" ^ String.concat " " (List.rev !sizes) ^ "))"
+let classify_hist (_ : sx) (real : string) (_ : string) : string =
+  let starts p = String.length real >= String.length p && String.sub real 0 (String.length p) = p in
+  if starts "(history-dependent" then "history"
+  else if starts "(old-handle-changed" then "handle"
+  else if starts "(env-invariant" then "sharing"
+  else if starts "(panic" || starts "(step-failed" then "no-result"
+  else "result"
+let () =
+  Hashtbl.replace table "hist" op_hist; Hashtbl.replace table "heap" op_heap;
+  Hashtbl.replace classifiers "hist" classify_hist; Hashtbl.replace classifiers "heap" classify_hist
